@@ -20,6 +20,38 @@ func TestVerifC02(t *testing.T) {
 	if vthorough() {
 		per = 250
 	}
+	var stable stableChk
+	type bigCase struct {
+		c *sContainer
+		v *gval
+	}
+	var bigs []bigCase
+	for _, n := range []int{3900, 5200} {
+		if n > 3900 && !vthorough() {
+			break
+		}
+		c, v := s.bigReport(rng, n)
+		bigs = append(bigs, bigCase{c, v})
+	}
+	for _, bc := range bigs {
+		p := s.newGo(bc.c)
+		s.toGo(bc.c, bc.v, p.Elem())
+		b, res := vmarshal(p)
+		obs := res
+		if res == "ok" {
+			obs = "ok x" + vhex(b)
+			stable.note(o, b)
+		}
+		o.line("layout "+bc.c.Name+" "+bc.v.String(), obs)
+		if res == "ok" {
+			p2 := s.newGo(bc.c)
+			r := vunmarshal(p2, b)
+			if r == "ok" {
+				r = "ok " + s.fromGo(bc.c, p2.Elem()).String()
+			}
+			o.line("dec-layout "+bc.c.Name+" "+bc.v.String(), r)
+		}
+	}
 	for _, c := range s.all {
 		for i := 0; i < per; i++ {
 			g := &vgen{s: s, r: rng, big: vthorough() && i%4 == 0, budget: 60}
@@ -27,6 +59,9 @@ func TestVerifC02(t *testing.T) {
 			p := s.newGo(c)
 			s.toGo(c, v, p.Elem())
 			b, res := vmarshal(p)
+			if res == "ok" {
+				stable.note(o, b)
+			}
 			obs := res
 			if res == "ok" {
 				obs = "ok x" + vhex(b)
